@@ -152,6 +152,13 @@ class Gen:
                 else:
                     out[p] = self.r.choice([(1 << (w - 1)) - 1, 1 << (w - 1), (1 << w) - 1, (1 << (w - 1)) + 1, (1 << w) - 2])
             return out
+        if cls == "lowhalf" and ty[0] != "f":
+            # integers that share their upper half and differ only below it, the lower halves straddling ITS sign bit: a
+            # 64-bit compare emulated from 32-bit pieces (or a biased constant built per half) goes wrong exactly there
+            h = w // 2
+            hi = self.r.below(1 << h) if self.r.below(3) else 0
+            lows = [0, 1, (1 << (h - 1)) - 1, 1 << (h - 1), (1 << (h - 1)) + 1, (1 << h) - 1]
+            return [(hi << h) | (self.r.choice(lows) if self.r.below(2) else self.r.below(1 << h)) for _ in range(n)]
         if cls == "onesign":
             # every element on the SAME side of the sign bit (all negative / all non-negative; unsigned: all >= or all < 2^(w-1)),
             # the side drawn per vector: an order reversed for one sign only is invisible on mixed-sign data
